@@ -848,3 +848,53 @@ Proof.
   - rewrite IH. reflexivity.
   - destruct b; cbn [filter fst]; [change (beq (B "Cookie"%string) (B "Cookie"%string)) with true; cbn [negb]|]; apply IH.
 Qed.
+
+(* ------------------------------------------------------------------ *)
+(** * Per-frontend response edits *)
+
+Lemma named_refl k v : named k (k, v) = true.
+Proof. unfold named. cbn [fst]. induction (lower_name k) as [|b t IH]; cbn; [reflexivity|]. rewrite N.eqb_refl. exact IH. Qed.
+
+Lemma filter_true_id {A} (p : A -> bool) l : (forall x, In x l -> p x = true) -> filter p l = l.
+Proof.
+  induction l as [|a l IH]; intros H; [reflexivity|]. cbn [filter]. rewrite (H a (or_introl eq_refl)).
+  f_equal. apply IH. intros x Hx. apply H. right. exact Hx.
+Qed.
+
+Lemma apply_edits_others es hs :
+  filter (fun h => negb (existsb (fun e => named (e_key e) h) es)) (apply_edits es hs) =
+  filter (fun h => negb (existsb (fun e => named (e_key e) h) es)) hs.
+Proof.
+  unfold apply_edits. rewrite filter_app.
+  assert (Hins : filter (fun h => negb (existsb (fun e => named (e_key e) h) es)) (flat_map (edit_inserts hs) es) = []).
+  { assert (G : forall es0, (forall e, In e es0 -> In e es) ->
+               filter (fun h => negb (existsb (fun e => named (e_key e) h) es)) (flat_map (edit_inserts hs) es0) = []).
+    { induction es0 as [|e t IH]; intros Hin; [reflexivity|]. cbn [flat_map]. rewrite filter_app.
+      rewrite IH by (intros x Hx; apply Hin; right; exact Hx). rewrite app_nil_r.
+      assert (He : existsb (fun e0 => named (e_key e0) (e_key e, e_val e)) es = true).
+      { apply existsb_exists. exists e. split; [apply Hin; left; reflexivity|apply named_refl]. }
+      unfold edit_inserts. destruct (e_mode e); repeat case_if; cbn [filter]; rewrite ?He; reflexivity. }
+    apply G. auto. }
+  rewrite Hins, app_nil_r. clear Hins.
+  induction hs as [|h t IH]; [reflexivity|]. cbn [filter].
+  destruct (existsb (fun e => edit_drops e && named (e_key e) h) es) eqn:Ed; cbn [negb].
+  - assert (existsb (fun e => named (e_key e) h) es = true) as ->.
+    { apply existsb_exists in Ed. destruct Ed as [e [He1 He2]]. apply andb_prop in He2.
+      apply existsb_exists. exists e. split; [exact He1|apply He2]. }
+    cbn [negb]. exact IH.
+  - cbn [filter]. destruct (negb (existsb (fun e => named (e_key e) h) es)); rewrite IH; reflexivity.
+Qed.
+
+Lemma apply_edits_set_if_absent k v hs :
+  apply_edits [mkedit MSetIfAbsent k v] hs = if existsb (named k) hs then hs else hs ++ [(k, v)].
+Proof.
+  unfold apply_edits. cbn [existsb edit_drops e_mode andb orb flat_map edit_inserts e_key e_val].
+  rewrite filter_true_id by reflexivity. rewrite app_nil_r. destruct (existsb (named k) hs); [apply app_nil_r|reflexivity].
+Qed.
+
+Lemma apply_edits_set k v hs :
+  apply_edits [mkedit MSet k v] hs = filter (fun h => negb (named k h)) hs ++ [(k, v)].
+Proof.
+  unfold apply_edits. cbn [existsb edit_drops e_mode andb orb flat_map edit_inserts e_key e_val]. rewrite app_nil_r.
+  f_equal. apply filter_ext. intros h. rewrite orb_false_r. reflexivity.
+Qed.
